@@ -55,7 +55,8 @@ ASSUMPTIONS = [
     'the on-disk layout (dtype/scaling) the live image reads through a stale proxy / stale float64 memmap cache',
 ]
 RULE = ('streams: selfsave (the repaired defect: load p, [ops], save p ... for every path x mmap x dtype x small/big '
-        'shape); exh3/exh4/exh5: first op load(p, mmap) then ALL suffixes over the op alphabet (26 ops: 12 loads, 6 '
+        'shape); spelling (self-overwrite where load and save name the same file differently: absolute, relative, ./, '
+        'sub/../, symlink, hard link, pair header name — all pairs of spellings, every path); exh3/exh4/exh5: first op load(p, mmap) then ALL suffixes over the op alphabet (26 ops: 12 loads, 6 '
         'saves, 3 set_data_dtype, get_fdata, uncache, edit, set affine, to_bytes; exh5 / quick exh4 over a 15-op '
         'sub-alphabet); random: length 4-12, random initial dtypes, absent files, 10% big (multi-page) arrays. '
         'A case is non-trivial when it contains a load and a save; distinct by (init, ops, big).')
@@ -201,6 +202,24 @@ def selfsave_cases():
     return out
 
 
+def spelling_cases():
+    """self-overwrite with the source and the target named by DIFFERENT spellings of the same file
+    (0 absolute, 1 cwd-relative, 2 ./name, 3 sub/../name, 4 symbolic link, 5 hard link, 6 header name of the pair)"""
+    out = []
+    for p in range(6):
+        sp = list(range(6)) + ([6] if p == 3 else [])
+        for ls in sp:
+            for ss in sp:
+                for big in ((False, True) if p in (0, 3, 4) else (False,)):
+                    init = list(INIT_I16)
+                    init[p] = 'f32' if (ls + ss) % 2 else 'i16'
+                    q = (p + 2) % 6
+                    out.append(mk_case(init, [f'L{p}1@{ls}', f'S{p}@{ss}', 'F'], big, 'spelling'))
+                    out.append(mk_case(init, [f'L{p}1@{ls}', f'S{q}@{ss}', f'S{p}@{ss}', 'A6', f'S{p}@{ls}'], big,
+                                       'spelling'))
+    return out
+
+
 def exhaustive(init, first, alpha, n, stream):
     out = []
     for f in first:
@@ -219,12 +238,16 @@ def rand_init(rng):
     return init
 
 
+def rand_spell(rng):
+    return '' if rng.random() < 0.7 else '@%d' % rng.randrange(1, 7)
+
+
 def rand_op(rng):
     r = rng.random()
     if r < 0.22:
-        return f'L{rng.randrange(6)}{rng.choice([1, 1, 0])}'
+        return f'L{rng.randrange(6)}{rng.choice([1, 1, 0])}' + rand_spell(rng)
     if r < 0.55:
-        return f'S{rng.randrange(6)}'
+        return f'S{rng.randrange(6)}' + rand_spell(rng)
     if r < 0.68:
         return 'D' + rng.choice(DTS)
     if r < 0.78:
@@ -264,7 +287,7 @@ def random_cases(rng, n, safe_bias=0.7):
 
 
 def cases(rng, tier):
-    out = selfsave_cases()
+    out = selfsave_cases() + spelling_cases()
     first_all = [f'L{p}{m}' for p in range(6) for m in (1, 0)]
     first_mm = [f'L{p}1' for p in range(6)]
     if tier == 'quick':
@@ -596,6 +619,35 @@ def _child(jobfile, outfile, workdir):
         for fn in os.listdir(td):
             shutil.copyfile(os.path.join(td, fn), os.path.join(d, fn))
         P = [os.path.join(d, n) for n in PATHS]
+        os.chdir(d)
+        if any('@' in o for o in ops):
+            os.mkdir('sub')
+            for fn in os.listdir(td):
+                os.symlink(fn, 'ln_' + fn)
+                os.link(fn, 'hl_' + fn)
+            for p_, dt_ in enumerate(init):      # dangling links for absent files: a save through them creates the file
+                if dt_ == '-':
+                    for fn in ([PATHS[p_]] + (['a.hdr'] if p_ == 3 else [])):
+                        os.symlink(fn, 'ln_' + fn)
+
+        def spelled(op):
+            """file name to hand to nibabel for `L<p><m>[@k]` / `S<p>[@k]`"""
+            body, _, k = op.partition('@')
+            p, k = int(body[1]), int(k or 0)
+            name = PATHS[p]
+            if k == 1:
+                return name
+            if k == 2:
+                return './' + name
+            if k == 3:
+                return 'sub/../' + name
+            if k == 4:
+                return 'ln_' + name
+            if k == 5 and os.path.lexists('hl_' + name):
+                return 'hl_' + name
+            if k == 6 and p == 3:
+                return 'a.hdr'
+            return P[p]
         img = None
         live = None            # snapshot of the data the live image had when loaded
         last_tok = {}          # path index -> content token right after the last save onto it
@@ -606,7 +658,7 @@ def _child(jobfile, outfile, workdir):
             tok, prob = None, None
             if c == 'L':
                 try:
-                    new = nib.load(P[int(op[1])], mmap=(op[2] == '1'))
+                    new = nib.load(spelled(op), mmap=(op[2] == '1'))
                     snap = np.array(new.dataobj)
                     img, live = new, snap
                     tok = 'L:ok'
@@ -670,7 +722,7 @@ def _child(jobfile, outfile, workdir):
                 elif c == 'S':
                     q = int(op[1])
                     try:
-                        nib.save(img, P[q])
+                        nib.save(img, spelled(op))
                         ftok, farr, faff = fresh(P[q], shape)
                         tok = 'S:' + ftok
                         last_tok[q] = ftok
@@ -723,14 +775,17 @@ def _child(jobfile, outfile, workdir):
                     emit(i=i, prob='op#%d final: the live image is no longer usable (%s)' %
                          (n, err or 'it yields data that are not its data'))
                     emit(i=i, tok='live=BAD')
+                    dead = True
                 else:
                     if not close(a1, live, 0.5) or not close(a2, live, 0.5):
                         emit(i=i, prob='op#%d final: the live image yields data different from when it was loaded' % n)
-                    fn = img.get_filename()
-                    fi = str(PATHS.index(os.path.basename(fn))) if fn and os.path.basename(fn) in PATHS else '-'
+                    fn = os.path.basename(img.get_filename() or '')
+                    fn = fn[3:] if fn[:3] in ('ln_', 'hl_') else fn
+                    fi = str(PATHS.index(fn)) if fn in PATHS else '-'
                     emit(i=i, tok='live=' + '/'.join([CLS.get(type(img).__name__, type(img).__name__),
                                                       dtname(img.get_data_dtype()), tag_of(img), aff_id(img.affine),
                                                       fi, d1, d2]))
+        if not dead:
             fin = []
             for p in range(6):
                 # an untouched file (byte-identical to the template, pair: both files) decodes as it did initially
@@ -750,6 +805,7 @@ def _child(jobfile, outfile, workdir):
             emit(i=i, tok='fs=' + ';'.join(fin))
         img = live = None
         emit(i=i, end=True)
+        os.chdir(workdir)
         shutil.rmtree(d, ignore_errors=True)
     os.close(fd)
 
